@@ -56,6 +56,8 @@ struct Flags {
     bgplisten: bool,
     /// file-out handles `Reconfigure`
     fileout: bool,
+    /// mrt-file-in handles `Reconfiguring`
+    mrt: bool,
 }
 
 struct Outcome { case: String, imp: String, oracle: String, nontrivial: bool, notes: Vec<String>, discard: bool }
@@ -1091,6 +1093,183 @@ fn gen_null(g: &mut Rng) -> (Vec<u8>, Vec<NEv>) {
     (cfg0, evs)
 }
 
+// =================================================================== mrt-file-in
+
+#[derive(Clone, Debug, PartialEq)]
+struct MCfg { files: Vec<u8>, updir: Option<u8> }
+#[derive(Clone, Debug, PartialEq)]
+enum MEv { Api(u8), Reload(MCfg) }
+fn show_mcfg(c: &MCfg) -> String { format!("{},{}", show_units(&c.files), c.updir.map(|d| d.to_string()).unwrap_or("-".into())) }
+fn parse_mcfg(s: &str) -> Option<MCfg> { let (f, d) = s.split_once(',')?; Some(MCfg { files: parse_units(f)?, updir: if d == "-" { None } else { Some(d.parse().ok()?) } }) }
+fn show_mev(e: &MEv) -> String { match e { MEv::Api(n) => format!("q{n}"), MEv::Reload(c) => format!("R{}", show_mcfg(c)) } }
+fn parse_mev(s: &str) -> Option<MEv> { let (h, r) = s.split_at(1); Some(match h { "q" => MEv::Api(r.parse().ok()?), "R" => MEv::Reload(parse_mcfg(r)?), _ => return None }) }
+fn show_mcase(c: &MCfg, evs: &[MEv]) -> String { format!("M|{}|{}", show_mcfg(c), join(evs.iter().map(show_mev), ";")) }
+fn parse_mcase(line: &str) -> Option<(MCfg, Vec<MEv>)> {
+    let f: Vec<&str> = line.split('|').collect();
+    if f.len() != 3 || f[0] != "M" { return None; }
+    Some((parse_mcfg(f[1])?, if f[2].is_empty() { vec![] } else { f[2].split(';').map(parse_mev).collect::<Option<Vec<_>>>()? }))
+}
+
+/// An MRT file with one BGP4MP_MESSAGE_AS4 record: an UPDATE announcing 10.<a>.<b>.0/24 (the prefix names the file).
+fn mrt_file(a: u8, b: u8) -> Vec<u8> {
+    let mut upd = vec![0u8, 0];
+    let attrs = [0x40u8, 1, 1, 0, 0x40, 2, 6, 2, 1, 0, 0, 0xfd, 0xe8, 0x40, 3, 4, 10, 0, 0, 9];
+    upd.extend_from_slice(&(attrs.len() as u16).to_be_bytes());
+    upd.extend_from_slice(&attrs);
+    upd.extend_from_slice(&[24, 10, a, b]);
+    let msg = hdr(2, &upd);
+    let mut body = vec![];
+    body.extend_from_slice(&65000u32.to_be_bytes());
+    body.extend_from_slice(&64512u32.to_be_bytes());
+    body.extend_from_slice(&[0, 0, 0, 1, 192, 0, 2, 1, 192, 0, 2, 2]);
+    body.extend_from_slice(&msg);
+    let mut out = vec![];
+    out.extend_from_slice(&1_700_000_000u32.to_be_bytes());
+    out.extend_from_slice(&16u16.to_be_bytes());
+    out.extend_from_slice(&4u16.to_be_bytes());
+    out.extend_from_slice(&(body.len() as u32).to_be_bytes());
+    out.extend_from_slice(&body);
+    out
+}
+/// which file an update came from: `s<f>` (static) or `d<dir>.<name>`
+fn file_of(u: &Update) -> Option<String> {
+    let ps: Vec<&rotonda::payload::Payload> = match u { Update::Bulk(ps) => ps.iter().collect(), Update::Single(p) => vec![p], _ => vec![] };
+    for p in ps {
+        if let rotonda::payload::RotondaRoute::Ipv4Unicast(n, _) = &p.rx_value {
+            let s = n.to_string();
+            for a in [9u8, 0, 1] { for b in 0..3u8 { if s == format!("10.{a}.{b}.0/24") { return Some(if a == 9 { format!("s{b}") } else { format!("d{a}.{b}") }); } } }
+        }
+    }
+    None
+}
+fn mrt_toml(dir: &std::path::Path, c: &MCfg) -> String {
+    let mut s = format!("type = \"mrt-file-in\"\nfilename = [{}]\n", join(c.files.iter().map(|f| format!("\"{}\"", dir.join("s").join(format!("s{}.mrt", f % 3)).display())), ", "));
+    if let Some(d) = c.updir { s.push_str(&format!("update_path = \"{}\"\n", dir.join(format!("d{}", d % 2)).display())); }
+    s
+}
+
+async fn run_mrt(flags: Flags, dir: &std::path::Path, cfg0: &MCfg, evs: &[MEv]) -> (Vec<String>, bool) {
+    let _ = std::fs::remove_dir_all(dir);
+    for (sub, a) in [("s", 9u8), ("d0", 0), ("d1", 1)] {
+        std::fs::create_dir_all(dir.join(sub)).unwrap();
+        for b in 0..3u8 { std::fs::write(dir.join(sub).join(format!("{}{b}.mrt", if a == 9 { "s" } else { "u" })), mrt_file(a, b)).unwrap(); }
+    }
+    let resources = rotonda::verif::http::Resources::default();
+    let metrics = rotonda::verif::http::MetricsCollection::default();
+    let comp = rotonda::verif::reconfunits::component_with_http("mrt", "mrt-file-in", rotonda::verif::c17::new_register(), resources.clone());
+    let Ok(unit) = toml::from_str::<rotonda::units::Unit>(&mrt_toml(dir, cfg0)) else { return (vec!["bad-config".into()], false) };
+    let (gate, mut agent) = Gate::new(8);
+    let collected: Arc<Mutex<Vec<Update>>> = Arc::new(Mutex::new(vec![]));
+    let c2 = collected.clone();
+    let target = Arc::new(FnTarget(Arc::new(move |u: Update| { c2.lock().unwrap().push(u); })));
+    let mut down = agent.create_link();
+    down.set_direct_update_target(target.clone());
+    let coord = Coordinator::new(1);
+    let wp = coord.clone().track("mrt".into());
+    let task = tokio::spawn(unit.run(comp, gate, wp));
+    // subscribe while the unit still waits at its start barrier: the files of `filename` are read right after it
+    let _ = down.connect(false).await;
+    coord.wait(|_, _| {}).await;
+    let mut downs = vec![down];
+    let mut seen = 0usize;
+    let take = |seen: &mut usize| -> Vec<String> { let g = collected.lock().unwrap(); let v: Vec<String> = g[*seen..].iter().filter_map(file_of).collect(); *seen = g.len(); v };
+    let c3 = collected.clone();
+    let n0 = cfg0.files.len();
+    wait_until(Duration::from_secs(4), || c3.lock().unwrap().len() >= n0).await;
+    tokio::time::sleep(Duration::from_millis(10)).await;
+    let st = take(&mut seen);
+    let mut toks = vec![format!("start>{}", if st.is_empty() { "-".into() } else { st.join(",") })];
+    let mut cur = cfg0.clone();
+    for ev in evs {
+        match ev {
+            MEv::Api(n) => {
+                let req = hyper::Request::builder().method("GET").uri(format!("/mrt/mrt/queue?file=u{}.mrt", n % 3)).body(hyper::Body::empty()).unwrap();
+                let res = tokio::time::timeout(Duration::from_secs(8), rotonda::verif::http::handle_request(req, &metrics, &resources)).await;
+                let status = match &res { Ok(r) => r.status().as_u16().to_string(), Err(_) => "timeout".into() };
+                tokio::time::sleep(Duration::from_millis(3)).await;
+                let got = take(&mut seen);
+                toks.push(if got.is_empty() { status } else { format!("{status}>{}", got.join(",")) });
+            }
+            MEv::Reload(c) => {
+                let Ok(newu) = toml::from_str::<rotonda::units::Unit>(&mrt_toml(dir, c)) else { toks.push("bad-config".into()); continue };
+                let (new_gate, mut new_agent) = Gate::new(8);
+                let mut d = new_agent.create_link();
+                d.set_direct_update_target(target.clone());
+                let _ = new_gate.process_until(async { let _ = d.connect(false).await; }).await;
+                downs.push(d);
+                let ok = agent.reconfigure(newu, new_gate).await.is_ok();
+                agent = new_agent;
+                let rep = UpstreamLinkReport::new();
+                let _ = agent.report_links(rep.clone()).await;
+                let r2 = rep.clone();
+                let acked = wait_until(Duration::from_secs(4), || r2.ready()).await;
+                // a tree that adopts `filename` reads the newly listed files now
+                let newly = c.files.iter().filter(|f| !cur.files.iter().any(|o| o % 3 == **f % 3)).count();
+                if flags.mrt && newly > 0 { let c3 = collected.clone(); let want = seen + newly; wait_until(Duration::from_secs(4), || c3.lock().unwrap().len() >= want).await; }
+                tokio::time::sleep(Duration::from_millis(if flags.mrt { 10 } else { 40 })).await;
+                let got = take(&mut seen);
+                cur = c.clone();
+                toks.push(format!("{}{}", if ok && acked { "r" } else { "r!" }, if got.is_empty() { String::new() } else { format!(">{}", got.join(",")) }));
+            }
+        }
+    }
+    let died = task.is_finished();
+    agent.terminate().await;
+    let _ = tokio::time::timeout(Duration::from_secs(2), task).await;
+    drop(downs);
+    let _ = std::fs::remove_dir_all(dir);
+    (toks, died)
+}
+
+fn mrt_case(flags: Flags, cfg0: &MCfg, evs: &[MEv]) -> Outcome {
+    let no = CASE_NO.fetch_add(1, std::sync::atomic::Ordering::SeqCst);
+    let tname = format!("reconfunits-{no}");
+    let rt = tokio::runtime::Builder::new_multi_thread().worker_threads(2).thread_name(tname.clone()).enable_all().build().unwrap();
+    let dir = std::env::temp_dir().join(format!("reconfunits-mrt-{}-{no}", std::process::id()));
+    let (toks, died) = rt.block_on(run_mrt(flags, &dir, cfg0, evs));
+    rt.shutdown_timeout(Duration::from_millis(200));
+    let panics = take_panics(&tname);
+    let mut fails: Vec<String> = vec![];
+    if died || !panics.is_empty() { fails.push(format!("reconf:mrt-file-in:unit-task-ended {}", panics.join(";").replace(' ', "_"))); }
+    // reference: start files; a request is resolved in the update_path in force; a newly listed file is read once
+    let mut cur = cfg0.clone();
+    let want0 = format!("start>{}", if cfg0.files.is_empty() { "-".into() } else { join(cfg0.files.iter().map(|f| format!("s{}", f % 3)), ",") });
+    if toks.first() != Some(&want0) { fails.push(format!("reconf:mrt-file-in:start-files-not-read expected {want0} got {}", toks.first().cloned().unwrap_or_default())); }
+    let mut reloads = 0;
+    for (i, ev) in evs.iter().enumerate() {
+        let got = toks.get(i + 1).cloned().unwrap_or_default();
+        match ev {
+            MEv::Api(n) => {
+                let want = match cur.updir { None => "400".to_string(), Some(d) => format!("200>d{}.{}", d % 2, n % 3) };
+                if got != want { fails.push(format!("reconf:mrt-file-in:update_path-not-adopted event {i} {}: expected {want} got {got} (update_path in force: {})", show_mev(ev), cur.updir.map(|d| format!("d{d}")).unwrap_or("none".into()))); }
+            }
+            MEv::Reload(c) => {
+                reloads += 1;
+                let newly: Vec<String> = c.files.iter().filter(|f| !cur.files.iter().any(|o| o % 3 == **f % 3)).map(|f| format!("s{}", f % 3)).collect();
+                let want = if newly.is_empty() { "r".to_string() } else { format!("r>{}", newly.join(",")) };
+                if got != want { fails.push(format!("reconf:mrt-file-in:filename-not-adopted event {i} {}: expected {want} got {got}", show_mev(ev))); }
+                cur = c.clone();
+            }
+        }
+    }
+    let notes = fails.iter().map(|f| format!("oracle-{}", f.split_whitespace().next().unwrap_or(""))).collect();
+    fails.sort_by_key(|f| if f.contains("filename-not-adopted") { 0 } else { 1 });
+    let oracle = fail_line(&mut fails);
+    Outcome { case: show_mcase(cfg0, evs), imp: toks.join(" "), oracle, nontrivial: reloads >= 1, notes, discard: false }
+}
+
+fn gen_mrt(g: &mut Rng) -> (MCfg, Vec<MEv>) {
+    let mc = |g: &mut Rng| { let files: Vec<u8> = (0..3u8).filter(|_| g.chance(1, 2)).collect(); MCfg { files, updir: match g.below(3) { 0 => None, d => Some(d as u8 - 1) } } };
+    let cfg0 = mc(g);
+    let mut cur = cfg0.clone();
+    let mut evs = vec![];
+    for _ in 0..g.range(2, 6) {
+        if g.chance(1, 2) { evs.push(MEv::Api(g.below(3) as u8)); }
+        else { let n = match g.below(4) { 0 => cur.clone(), 1 => MCfg { updir: match cur.updir { None => Some(0), Some(0) => Some(1), _ => None }, ..cur.clone() }, 2 => { let mut f = cur.files.clone(); let x = g.below(3) as u8; if !f.contains(&x) { f.push(x); } MCfg { files: f, ..cur.clone() } } _ => mc(g) }; cur = n.clone(); evs.push(MEv::Reload(n)); }
+    }
+    (cfg0, evs)
+}
+
 // =================================================================== main
 
 fn replay_line(flags: Flags, line: &str) -> Option<Outcome> {
@@ -1098,6 +1277,7 @@ fn replay_line(flags: Flags, line: &str) -> Option<Outcome> {
     if let Some((c, e)) = parse_fcase(line) { return Some(file_case(&c, &e)); }
     if let Some((c, e)) = parse_xcase(line) { return Some(filter_case(&c, &e)); }
     if let Some((c, e)) = parse_ncase(line) { return Some(null_case(&c, &e)); }
+    if let Some((c, e)) = parse_mcase(line) { return Some(mrt_case(flags, &c, &e)); }
     None
 }
 
@@ -1105,7 +1285,7 @@ fn main() {
     let args = parse_args();
     let t0 = Instant::now();
     install_panic_hook();
-    let mut rec = Recorder::new("bgp-tcp-in: a Reconfigure arrives while at least one session is established; file-out: at least one reload and at least one record emitted after it");
+    let mut rec = Recorder::new("bgp-tcp-in: a Reconfigure arrives while at least one session is established; file-out: at least one reload and at least one record emitted after it; filter: a reload and a notice; null-out, mrt-file-in: at least one reload");
     let record = |rec: &mut Recorder, o: Outcome| {
         if o.discard { rec.bump("discarded.environment"); return; }
         for n in &o.notes { rec.bump(n); }
@@ -1123,9 +1303,19 @@ fn main() {
         wouts.push(o);
     } }
     for (i, h) in fh.into_iter().enumerate() { if let Ok(o) = h.join() { if i == 0 { flags.fileout = !o.imp.starts_with("ad") && !o.imp.starts_with("add"); } wouts.push(o); } }
+    {
+        let w = mrt_case(Flags { mrt: true, ..flags }, &MCfg { files: vec![0], updir: Some(0) }, &[MEv::Api(1), MEv::Reload(MCfg { files: vec![0, 2], updir: Some(1) }), MEv::Api(1), MEv::Reload(MCfg { files: vec![0, 2], updir: Some(1) }), MEv::Reload(MCfg { files: vec![2], updir: None }), MEv::Api(0)]);
+        flags.mrt = w.imp.contains(" r>s2 ");
+        wouts.push(w);
+    }
     if let Some(path) = &args.replay {
         let mut rec = Recorder::new(&rec.rule.clone());
-        for line in replay_cases(path) { if let Some(o) = replay_line(flags, &line) { record(&mut rec, o); } }
+        // in order, but eight at a time (a confirmation replay of many suspect cases must not take minutes)
+        let lines = replay_cases(path);
+        for chunk in lines.chunks(8) {
+            let hs: Vec<_> = chunk.iter().cloned().map(|l| std::thread::spawn(move || replay_line(flags, &l))).collect();
+            for h in hs { if let Ok(Some(o)) = h.join() { record(&mut rec, o); } }
+        }
         set_variants(&mut rec, flags);
         rec.finish(&args, t0.elapsed().as_secs_f64());
         return;
@@ -1148,7 +1338,7 @@ fn main() {
                     // one thread for the three cheap component types; the counts are capped so that they do not crowd out the bgp cases
                     let k = outs.len();
                     if k >= cheap_cap { std::thread::sleep(Duration::from_millis(50)); continue; }
-                    match k % 4 { 0 | 1 => { let (c, e) = gen_file(&mut g); outs.push(file_case(&c, &e)); } 2 => { let (c, e) = gen_filter(&mut g); outs.push(filter_case(&c, &e)); } _ => { let (c, e) = gen_null(&mut g); outs.push(null_case(&c, &e)); } }
+                    match k % 5 { 0 | 1 => { let (c, e) = gen_file(&mut g); outs.push(file_case(&c, &e)); } 2 => { let (c, e) = gen_filter(&mut g); outs.push(filter_case(&c, &e)); } 3 => { let (c, e) = gen_mrt(&mut g); outs.push(mrt_case(flags, &c, &e)); } _ => { let (c, e) = gen_null(&mut g); outs.push(null_case(&c, &e)); } }
                 }
             }
             outs
@@ -1165,5 +1355,6 @@ fn set_variants(rec: &mut Recorder, f: Flags) {
     rec.variant("bgpmatch", v(f.bgpmatch));
     rec.variant("bgplisten", v(f.bgplisten));
     rec.variant("fileout", v(f.fileout));
+    rec.variant("mrt", v(f.mrt));
     let _: BTreeMap<u8, u8> = BTreeMap::new();
 }
